@@ -13,6 +13,8 @@ SCRIPTS = {
                 C15.SRCS, 0, 8),
     "vnadata_addf": ("h_script_vnadata", ["-DS_VNADATA", "-DWF_AFTER_FAULT", "-DS_ADD_FREQUENCY", "-DVD_R_MAX=3", "-DVD_F_MAX=4", "-DVD_FA_MAX=51", "-DVD_MA_MAX=9", "-DVD_PA_MAX=3"],
                 C15.SRCS, 0, 52),
+    "vnadata_format": ("h_script_vnadata", ["-DS_VNADATA", "-DWF_AFTER_FAULT", "-DS_FORMAT", "-DVD_R_MAX=3", "-DVD_F_MAX=3", "-DVD_FA_MAX=3", "-DVD_MA_MAX=9", "-DVD_PA_MAX=3"],
+                C15.SRCS + ["vnadata_set_simple_format.c", "vnadata_update_format_string.c", "vnadata_format_to_name.c", "vnadata_get_type_name.c"], 0, 8),
     "vnacal": ("h_script_vnacal", ["-DS_VNACAL", "-DVERIF_CUT_rfi_after_search=__CPROVER_assume(0)"],
                ["vnacal_create.c", "vnacal_free.c", "vnacal_parameter.c", "vnacal_make_scalar_parameter.c",
                 "vnacal_make_vector_parameter.c", "vnacal_make_unknown_parameter.c", "vnacal_delete_parameter.c",
